@@ -23,7 +23,8 @@ def universe():
             S(a, b), S(b, a), S(a, Ng(b)), S(a, b, n(1)), P(n(2), a), P(a, n(2)), P(n(3), a), P(a, b), P(b, a), P(a, a), Pw(a, n(2)),
             P(Ng(n(1)), a), S(P(n(2), a), n(1)), S(P(n(2), a), Ng(a)), Q(a, n(2)), Q(P(n(2), a), n(2)), Q(S(a, b), n(2)),
             S(Q(a, n(2)), Q(a, n(2))), P(S(a, n(1)), S(a, Ng(n(1)))), S(Pw(a, n(2)), Ng(n(1))), S(a, c), P(n(2), S(a, b)),
-            S(P(n(2), a), P(n(2), b)), Ng(S(a, b)), S(Ng(a), Ng(b)), Q(a, b), P(Q(a, b), b)]
+            S(P(n(2), a), P(n(2), b)), Ng(S(a, b)), S(Ng(a), Ng(b)), Q(a, b), P(Q(a, b), b),
+            Pw(Ng(a), n(2)), Pw(Ng(n(2)), n(2)), Pw(Ng(a), n(3)), S(Pw(Ng(a), n(2)), Pw(a, n(2)), Ng(n(1))), Pw(S(a, Ng(b)), n(2))]
 
 
 def call(t1, name, fn, t2):
